@@ -14,9 +14,26 @@ fn main() {
         match prog::vfn::selftest() { Ok(n) => println!("vfn selftest ok: {} carrier elements", n), Err(e) => { eprintln!("vfn selftest FAILED: {}", e); std::process::exit(2) } }
         return;
     }
+    if args[1] == "--describe" {
+        // pgen --describe <family> <tier> <unit>: JSON description of one unit (for compile-failure reports)
+        let us = prog::families::units(&args[2], args[3] == "thorough");
+        let ui: usize = args[4].parse().unwrap();
+        let u = &us[ui];
+        let j = prog::mj::obj(vec![("unit", ui.into()), ("tag", u.tag.clone().into()),
+            ("variants", prog::mj::J::Arr(u.variants.iter().map(|v| prog::mj::obj(vec![("label", v.label.clone().into()), ("program", prog::harness::variant_items(v).into())])).collect()))]);
+        println!("{}", j.to_string());
+        return;
+    }
     let (family, tier, out) = (&args[1], &args[2], &args[3]);
     let nshards: usize = args.get(4).and_then(|s| s.parse().ok()).unwrap_or(16);
-    let us = prog::families::units(family, tier == "thorough");
+    let mut us = prog::families::units(family, tier == "thorough");
+    // units whose program does not compile are excluded from the batch (reported by the driver)
+    let excl_path = std::path::Path::new(out).join(format!("{}_{}", family, tier)).join("exclude.json");
+    if let Ok(txt) = std::fs::read_to_string(&excl_path) {
+        if let Ok(j) = prog::mj::J::parse(&txt) {
+            if let Some(a) = j.get("units").as_array() { for x in a { let i = x.as_u64().unwrap() as usize; if i < us.len() { us[i].variants.clear(); } } }
+        }
+    }
     let byods = us.iter().any(|u| u.variants.iter().any(|v| v.prog.rels.iter().any(|r| r.ds.is_some())));
     let engines = std::env::var("VERIF_ENGINES").unwrap_or_else(|_| "/verif/engines".into());
     let (nu, nv) = prog::gen::generate(family, tier, &us, nshards, std::path::Path::new(out), &engines, byods);
